@@ -39,3 +39,189 @@ package aggregator
 //@   trusted
 //@   requires a.shutdown != nil && !closed(a.shutdown)
 //@   modifies closed(a.shutdown), a.wg.n
+
+// ---------------------------------------------------------------- processor.go (C10)
+// Ghost state of every processor: the values contributed so far, in arrival order, and their
+// timestamps. The constructor contributes the first point. Each aggregation function is a left
+// fold over these logs with the same (uninterpreted) float operations the code uses, so the
+// statement "the configured function of exactly the contributed values" is exact for IEEE
+// arithmetic without modelling rounding.
+//@ ghost (*) vals log
+//@ ghost (*) tss log
+//@ smt (define-fun-rec foldAdd ((l Log)) F64 (ite ((_ is lnil) l) f64zero (ite ((_ is lnil) (lrest l)) (eFv (llast l)) (fadd (foldAdd (lrest l)) (eFv (llast l))))))
+//@ smt (define-fun-rec foldMax ((l Log)) F64 (ite ((_ is lnil) l) f64zero (ite ((_ is lnil) (lrest l)) (eFv (llast l)) (ite (flt (foldMax (lrest l)) (eFv (llast l))) (eFv (llast l)) (foldMax (lrest l))))))
+//@ smt (define-fun-rec foldMin ((l Log)) F64 (ite ((_ is lnil) l) f64zero (ite ((_ is lnil) (lrest l)) (eFv (llast l)) (ite (flt (eFv (llast l)) (foldMin (lrest l))) (eFv (llast l)) (foldMin (lrest l))))))
+//@ // derive: value and timestamp of the newest / oldest point (first wins on equal timestamps)
+//@ smt (define-fun-rec newestTs ((t Log)) Int (ite ((_ is lnil) t) 0 (ite ((_ is lnil) (lrest t)) (eIv (llast t)) (ite (> (eIv (llast t)) (newestTs (lrest t))) (eIv (llast t)) (newestTs (lrest t))))))
+//@ smt (define-fun-rec oldestTs ((t Log)) Int (ite ((_ is lnil) t) 0 (ite ((_ is lnil) (lrest t)) (eIv (llast t)) (ite (< (eIv (llast t)) (oldestTs (lrest t))) (eIv (llast t)) (oldestTs (lrest t))))))
+//@ smt (define-fun-rec newestVal ((v Log) (t Log)) F64 (ite ((_ is lnil) t) f64zero (ite ((_ is lnil) (lrest t)) (eFv (llast v)) (ite (> (eIv (llast t)) (newestTs (lrest t))) (eFv (llast v)) (newestVal (lrest v) (lrest t))))))
+//@ smt (define-fun-rec oldestVal ((v Log) (t Log)) F64 (ite ((_ is lnil) t) f64zero (ite ((_ is lnil) (lrest t)) (eFv (llast v)) (ite (< (eIv (llast t)) (oldestTs (lrest t))) (eFv (llast v)) (oldestVal (lrest v) (lrest t))))))
+//@ spec contributed(p Processor, val f64, ts int) bool := p.vals == old(p.vals) ++ eF(val) && p.tss == old(p.tss) ++ eI(ts)
+//@ spec firstPoint(p Processor, val f64, ts int) bool := p != nil && p.vals == lnil ++ eF(val) && p.tss == lnil ++ eI(ts)
+//@ spec one(results []processorResult, name bytes, v f64) bool := len(results) == 1 && results[0].fcnName == name && results[0].val == v
+//@
+//@ // -- interface level (what the aggregator relies on)
+//@ iface (p Processor) Add(val float64, ts uint32)
+//@   property C10
+//@   modifies p.vals, p.tss, allof("aggregator.Avg.sum"), allof("aggregator.Avg.cnt"), allof("aggregator.Count.cnt"), allof("aggregator.Delta.max"), allof("aggregator.Delta.min"), allof("aggregator.Derive.oldestTs"), allof("aggregator.Derive.newestTs"), allof("aggregator.Derive.oldestVal"), allof("aggregator.Derive.newestVal"), allof("aggregator.Last.val"), allof("aggregator.Max.val"), allof("aggregator.Min.val"), allof("aggregator.Sum.sum")
+//@   ensures[contributes] contributed(p, val, ts)
+//@
+//@ // -- avg
+//@ spec avgRep(a *Avg) bool := a.sum == foldAdd(a.vals) && a.cnt == llen(a.vals) && a.cnt >= 1
+//@ func NewAvg(val float64, ts uint32) Processor
+//@   property C10
+//@   ghostset result.vals := lnil ++ eF(val)
+//@   ghostset result.tss := lnil ++ eI(ts)
+//@   ensures[first] firstPoint(result, val, ts) && typeIs(result, *Avg) && avgRep(as(result, *Avg))
+//@ func (a *Avg) Add(val float64, ts uint32)
+//@   property C10
+//@   requires avgRep(a)
+//@   ghostset a.vals := old(a.vals) ++ eF(val)
+//@   ghostset a.tss := old(a.tss) ++ eI(ts)
+//@   modifies a.sum, a.cnt, a.vals, a.tss
+//@   ensures[contributes] a.vals == old(a.vals) ++ eF(val) && a.tss == old(a.tss) ++ eI(ts)
+//@   ensures[rep] avgRep(a)
+//@ func (a *Avg) Flush() (results []processorResult, ok bool)
+//@   property C10
+//@   requires avgRep(a)
+//@   ensures[avg] ok && one(results, "avg", fdiv(foldAdd(a.vals), f64ofint(llen(a.vals))))
+//@
+//@ // -- count
+//@ spec countRep(c *Count) bool := c.cnt == llen(c.vals) && c.cnt >= 1
+//@ func NewCount(val float64, ts uint32) Processor
+//@   property C10
+//@   ghostset result.vals := lnil ++ eF(val)
+//@   ghostset result.tss := lnil ++ eI(ts)
+//@   ensures[first] firstPoint(result, val, ts) && typeIs(result, *Count) && countRep(as(result, *Count))
+//@ func (c *Count) Add(val float64, ts uint32)
+//@   property C10
+//@   requires countRep(c)
+//@   ghostset c.vals := old(c.vals) ++ eF(val)
+//@   ghostset c.tss := old(c.tss) ++ eI(ts)
+//@   modifies c.cnt, c.vals, c.tss
+//@   ensures[contributes] c.vals == old(c.vals) ++ eF(val) && c.tss == old(c.tss) ++ eI(ts)
+//@   ensures[rep] countRep(c)
+//@ func (c *Count) Flush() (results []processorResult, ok bool)
+//@   property C10
+//@   requires countRep(c)
+//@   ensures[count] ok && one(results, "count", f64ofint(llen(c.vals)))
+//@
+//@ // -- delta
+//@ spec deltaRep(d *Delta) bool := d.max == foldMax(d.vals) && d.min == foldMin(d.vals) && d.vals != lnil
+//@ func NewDelta(val float64, ts uint32) Processor
+//@   property C10
+//@   ghostset result.vals := lnil ++ eF(val)
+//@   ghostset result.tss := lnil ++ eI(ts)
+//@   ensures[first] firstPoint(result, val, ts) && typeIs(result, *Delta) && deltaRep(as(result, *Delta))
+//@ func (d *Delta) Add(val float64, ts uint32)
+//@   property C10
+//@   requires deltaRep(d)
+//@   ghostset d.vals := old(d.vals) ++ eF(val)
+//@   ghostset d.tss := old(d.tss) ++ eI(ts)
+//@   modifies d.max, d.min, d.vals, d.tss
+//@   ensures[contributes] d.vals == old(d.vals) ++ eF(val) && d.tss == old(d.tss) ++ eI(ts)
+//@   ensures[rep] deltaRep(d)
+//@ func (d *Delta) Flush() (results []processorResult, ok bool)
+//@   property C10
+//@   requires deltaRep(d)
+//@   ensures[delta] ok && one(results, "delta", fsub(foldMax(d.vals), foldMin(d.vals)))
+//@
+//@ // -- derive (needs two distinct timestamps, docs/aggregation.md)
+//@ spec deriveRep(d *Derive) bool := d.tss != lnil && llen(d.vals) == llen(d.tss) && d.newestTs == newestTs(d.tss) && d.oldestTs == oldestTs(d.tss)
+//@      && d.newestVal == newestVal(d.vals, d.tss) && d.oldestVal == oldestVal(d.vals, d.tss)
+//@ func NewDerive(val float64, ts uint32) Processor
+//@   property C10
+//@   ghostset result.vals := lnil ++ eF(val)
+//@   ghostset result.tss := lnil ++ eI(ts)
+//@   ensures[first] firstPoint(result, val, ts) && typeIs(result, *Derive) && deriveRep(as(result, *Derive))
+//@ func (d *Derive) Add(val float64, ts uint32)
+//@   property C10
+//@   requires deriveRep(d)
+//@   ghostset d.vals := old(d.vals) ++ eF(val)
+//@   ghostset d.tss := old(d.tss) ++ eI(ts)
+//@   modifies d.oldestTs, d.newestTs, d.oldestVal, d.newestVal, d.vals, d.tss
+//@   ensures[contributes] d.vals == old(d.vals) ++ eF(val) && d.tss == old(d.tss) ++ eI(ts)
+//@   ensures[rep] deriveRep(d)
+//@ func (d *Derive) Flush() (results []processorResult, ok bool)
+//@   property C10
+//@   requires deriveRep(d)
+//@   ensures[needs_two] ok == (newestTs(d.tss) != oldestTs(d.tss))
+//@   ensures[derive] ok ==> one(results, "derive", fdiv(fsub(newestVal(d.vals, d.tss), oldestVal(d.vals, d.tss)), f64ofint(newestTs(d.tss) - oldestTs(d.tss))))
+//@
+//@ // -- last
+//@ spec lastRep(l *Last) bool := l.vals != lnil && l.val == eFv(llast(l.vals))
+//@ func NewLast(val float64, ts uint32) Processor
+//@   property C10
+//@   ghostset result.vals := lnil ++ eF(val)
+//@   ghostset result.tss := lnil ++ eI(ts)
+//@   ensures[first] firstPoint(result, val, ts) && typeIs(result, *Last) && lastRep(as(result, *Last))
+//@ func (l *Last) Add(val float64, ts uint32)
+//@   property C10
+//@   requires lastRep(l)
+//@   ghostset l.vals := old(l.vals) ++ eF(val)
+//@   ghostset l.tss := old(l.tss) ++ eI(ts)
+//@   modifies l.val, l.vals, l.tss
+//@   ensures[contributes] l.vals == old(l.vals) ++ eF(val) && l.tss == old(l.tss) ++ eI(ts)
+//@   ensures[rep] lastRep(l)
+//@ func (l *Last) Flush() (results []processorResult, ok bool)
+//@   property C10
+//@   requires lastRep(l)
+//@   ensures[last] ok && one(results, "last", eFv(llast(l.vals)))
+//@
+//@ // -- max / min
+//@ spec maxRep(m *Max) bool := m.vals != lnil && m.val == foldMax(m.vals)
+//@ func NewMax(val float64, ts uint32) Processor
+//@   property C10
+//@   ghostset result.vals := lnil ++ eF(val)
+//@   ghostset result.tss := lnil ++ eI(ts)
+//@   ensures[first] firstPoint(result, val, ts) && typeIs(result, *Max) && maxRep(as(result, *Max))
+//@ func (m *Max) Add(val float64, ts uint32)
+//@   property C10
+//@   requires maxRep(m)
+//@   ghostset m.vals := old(m.vals) ++ eF(val)
+//@   ghostset m.tss := old(m.tss) ++ eI(ts)
+//@   modifies m.val, m.vals, m.tss
+//@   ensures[contributes] m.vals == old(m.vals) ++ eF(val) && m.tss == old(m.tss) ++ eI(ts)
+//@   ensures[rep] maxRep(m)
+//@ func (m *Max) Flush() (results []processorResult, ok bool)
+//@   property C10
+//@   requires maxRep(m)
+//@   ensures[max] ok && one(results, "max", foldMax(m.vals))
+//@ spec minRep(m *Min) bool := m.vals != lnil && m.val == foldMin(m.vals)
+//@ func NewMin(val float64, ts uint32) Processor
+//@   property C10
+//@   ghostset result.vals := lnil ++ eF(val)
+//@   ghostset result.tss := lnil ++ eI(ts)
+//@   ensures[first] firstPoint(result, val, ts) && typeIs(result, *Min) && minRep(as(result, *Min))
+//@ func (m *Min) Add(val float64, ts uint32)
+//@   property C10
+//@   requires minRep(m)
+//@   ghostset m.vals := old(m.vals) ++ eF(val)
+//@   ghostset m.tss := old(m.tss) ++ eI(ts)
+//@   modifies m.val, m.vals, m.tss
+//@   ensures[contributes] m.vals == old(m.vals) ++ eF(val) && m.tss == old(m.tss) ++ eI(ts)
+//@   ensures[rep] minRep(m)
+//@ func (m *Min) Flush() (results []processorResult, ok bool)
+//@   property C10
+//@   requires minRep(m)
+//@   ensures[min] ok && one(results, "min", foldMin(m.vals))
+//@
+//@ // -- sum
+//@ spec sumRep(s *Sum) bool := s.vals != lnil && s.sum == foldAdd(s.vals)
+//@ func NewSum(val float64, ts uint32) Processor
+//@   property C10
+//@   ghostset result.vals := lnil ++ eF(val)
+//@   ghostset result.tss := lnil ++ eI(ts)
+//@   ensures[first] firstPoint(result, val, ts) && typeIs(result, *Sum) && sumRep(as(result, *Sum))
+//@ func (s *Sum) Add(val float64, ts uint32)
+//@   property C10
+//@   requires sumRep(s)
+//@   ghostset s.vals := old(s.vals) ++ eF(val)
+//@   ghostset s.tss := old(s.tss) ++ eI(ts)
+//@   modifies s.sum, s.vals, s.tss
+//@   ensures[contributes] s.vals == old(s.vals) ++ eF(val) && s.tss == old(s.tss) ++ eI(ts)
+//@   ensures[rep] sumRep(s)
+//@ func (s *Sum) Flush() (results []processorResult, ok bool)
+//@   property C10
+//@   requires sumRep(s)
+//@   ensures[sum] ok && one(results, "sum", foldAdd(s.vals))
